@@ -127,6 +127,7 @@ pub struct Merged {
     pub skipped: u64,
     pub found: Vec<(u64, u64, Found)>,
     pub found_total: u64,
+    pub found_per_class: BTreeMap<String, u64>,
     pub harness: Vec<String>,
     pub nontrivial: BTreeSet<u64>,
     pub stats: BTreeMap<String, u64>,
@@ -139,6 +140,7 @@ pub fn merge(outs: Vec<WorkerOut>) -> Merged {
         skipped: 0,
         found: vec![],
         found_total: 0,
+        found_per_class: BTreeMap::new(),
         harness: vec![],
         nontrivial: BTreeSet::new(),
         stats: BTreeMap::new(),
@@ -148,6 +150,9 @@ pub fn merge(outs: Vec<WorkerOut>) -> Merged {
         m.runs += o.runs;
         m.skipped += o.skipped;
         m.found_total += o.found_total;
+        for (k, v) in o.found_per_class {
+            *m.found_per_class.entry(k).or_insert(0) += v;
+        }
         m.found.extend(o.found);
         m.harness.extend(o.harness);
         m.nontrivial.extend(o.nontrivial);
@@ -198,6 +203,9 @@ pub fn check(p: &dyn Property, thorough: bool, meta: Meta, extra_legs: &mut dyn 
     let outs = spawn_workers(&exe, p.id(), thorough, seed, nw, total, &[], "main");
     let mut m = merge(outs);
     let legs = extra_legs(&mut m);
+    if let Ok(path) = std::env::var("VERIF_DUMP_FOUND") {
+        let _ = write_json(&path, &m.found);
+    }
 
     if !m.harness.is_empty() {
         for h in m.harness.iter().take(10) {
@@ -282,7 +290,7 @@ pub fn check(p: &dyn Property, thorough: bool, meta: Meta, extra_legs: &mut dyn 
             p.id(),
             path,
             class,
-            unknown.len(),
+            m.found_per_class.get(class).copied().unwrap_or(unknown.len() as u64),
             serde_json::to_string(&min.detail).unwrap_or_default()
         );
         reported.push(json!({"class": class, "replay": path, "occurrences": unknown.len()}));
